@@ -38,6 +38,12 @@ CLAIMED = {
             'that later frames are chunked iff both sides advertised base:1.1, that id/capabilities come from a received hello, that connect '
             'cannot hang; decide-checked table: all 14 profiles always advertise a base URI, default = documented list ++ extras.',
             NOTE + 'HelloHandler.build/parse (lxml) enter as environment; the hello on the wire is parsed with xml.etree in the oracle.', 'DESIGN.md 5/C05'),
+    'C06': (T + ': decision logic stated outright',
+            'Proof that ok iff no rpc-error, the error list mirrors the rpc-errors, an RPCError is raised iff (ALL and some non-exempt error) or '
+            '(ERRORS and some non-exempt error of severity error), never under NONE, that the exemption test is exactly the documented '
+            'exact / prefix* / *suffix / *infix* match (case-insensitive), and that an aggregate carries all errors with severity error iff a '
+            'constituent has it. The real RPC._request / RPCReply.parse / is_rpc_error_exempt run on generated replies x modes x pattern sets.',
+            NOTE + 'str.lower() modelled for ASCII letters; lxml parsing of the reply is the environment.', 'DESIGN.md 5/C06'),
     'C08': (T + ': grammar spec <-> _abbreviate, dict semantics',
             'Machine-checked proof that, in the model of capabilities.py, lookup of an advertised URI succeeds, shorthand lookup succeeds iff the '
             'grammar of RFC capability/base URNs says so (both URN forms), results are the right capability, parameters are exactly the '
